@@ -404,10 +404,14 @@ pub fn run(tier: Tier) -> i32 {
     report.guard_nonzero("guard_probes", probes);
     report.guard_nonzero("guard_purge_vs_no_purge_comparisons", cmp);
     report.assume("delivery is timely in the sense of the property: strictly less than one hour behind the newest stamp already handed to the replica from the same origin");
+    crate::c08_actor::run(tier, &mut report);
     report.finish()
 }
 
 pub fn replay(case: &J) -> i32 {
+    if case.get("block").and_then(|v| v.as_str()) == Some("actor") {
+        return crate::c08_actor::replay(case);
+    }
     if case.get("skew_minutes").is_some() {
         return crate::c08_cluster::replay(case);
     }
